@@ -22,7 +22,7 @@ def verify(rep, jobs, L, phase, variant):
     L0 = L
     for j in jobs:
         L = j.get("L") or L0          # per-job line table (the per-form sweep uses one specific line per job)
-        ops = ["o%d" % j["start"]]
+        ops = ([j["pre"]] if j.get("pre") else []) + ["o%d" % j["start"]]
         for c, ls in j["calls"]:
             if isinstance(c, str):      # 'N<c>': a counting call in between (it must not disturb the fitting setting)
                 ops.append("%s:%s" % (c, hexec.esc("\n".join(L[l][0] for l in ls) + "\n")))
@@ -209,19 +209,29 @@ def run(tier, seed):
     if not rep.expired():
         from . import c06, c16
         big = sorted({t for t, _ in c16.base_lines("quick")})
-        keep, table = c06.singles_cfg(big, [hexec.DEFAULT_CFG])
+        # under the default options for every form; under the all-STRICT and all-NASM option sets as well for every form whose
+        # bytes depend on the options (the padded instruction is encoded a second time from the same parsed line)
+        cfgs = hexec.QUICK_CFGS
+        keep, table = c06.singles_cfg(big, cfgs)
         jobs = []
         for t in keep:
-            hx = table[(t, hexec.DEFAULT_CFG)]
-            l = len(hx) // 2
-            Lj = {l: (t, hx)}
-            for c in (8, 16, 32):
-                if l >= c:
-                    continue
-                for p in sorted({c - l, c - l + 1, c - 1, 0, 2 * c - l}):
-                    jobs.append({"start": p, "calls": [(c, [l])], "n": 256, "L": Lj, "line": t})
-                    if models.fit_layout(p, [l], c)[0][0][0]:
-                        nontriv += 1
+            variants = [hexec.DEFAULT_CFG]
+            if tier == "thorough":
+                variants = list(cfgs)
+            else:
+                variants += [c for c in cfgs[1:] if table[(t, c)] != table[(t, hexec.DEFAULT_CFG)]]
+            for cfg in variants:
+                hx = table[(t, cfg)]
+                l = len(hx) // 2
+                Lj = {l: (t, hx)}
+                for c in (8, 16, 32):
+                    if l >= c:
+                        continue
+                    for p in sorted({c - l, c - l + 1, c - 1, 0, 2 * c - l}):
+                        jobs.append({"start": p, "calls": [(c, [l])], "n": 256, "L": Lj, "line": t,
+                                     "pre": None if cfg == hexec.DEFAULT_CFG else hexec.cfg_ops(cfg)})
+                        if models.fit_layout(p, [l], c)[0][0][0]:
+                            nontriv += 1
         verify(rep, jobs, L, "per-form", variant)
         rep.bounds["per_form_boundary_cases"] = len(jobs)
         rep.states += len(jobs)
